@@ -757,6 +757,18 @@ impl ReverseProxySettings {
     }
 }
 
+#[cfg(trusttunnel_verif)]
+impl ReverseProxySettings {
+    /// Verification door: read-only view of the three fields (the struct derives no getters)
+    pub fn verif_fields(&self) -> (SocketAddr, &str, bool) {
+        (
+            self.server_address,
+            self.path_mask.as_str(),
+            self.h3_backward_compatibility,
+        )
+    }
+}
+
 impl IcmpSettings {
     pub fn builder() -> IcmpSettingsBuilder {
         IcmpSettingsBuilder::new()
